@@ -104,6 +104,8 @@ func runC05(w *World) *Result {
 	ChainRule(w, batch, r, "R-C05-chain")
 	r.Rule("R-C05-lenmono", "Batch: element assignment never shortens a slice (the stored length index+1 is written only where index >= old length)", 1)
 	BatchLenMonotoneRule(w, batch, r, "R-C05-lenmono")
+	r.Rule("R-C05-dvc", "Batch: the storage name of a slice literal is formed from a counter the script advances when the literal is executed (an emission-time number would be shared by all executions: calls, loop rounds)", 1)
+	c03Dvc(w, batch, r, "R-C05-dvc")
 	r.Rule("R-C05-blockexit", "Batch: a line closing a parenthesised block that held user statements is never reached by falling through: the line before it is an unconditional goto to a label kept on the construct's stack", 3)
 	c05BlockExit(w, batch, r)
 	// echo of program text: "echo <text>" with text on / off switches command echoing and prints
